@@ -295,6 +295,9 @@ func (s *State) Fact(t *Term) {
 	if t == TTrue {
 		return
 	}
+	if hasFreeBound(t, nil) {
+		return // generated while evaluating under a binder: not a closed fact
+	}
 	s.Facts = append(s.Facts, t)
 }
 
@@ -348,4 +351,41 @@ func heapKeys(m map[string]*Term) []string {
 	}
 	sort.Strings(ks)
 	return ks
+}
+
+// hasFreeBound reports whether t mentions a quantifier-bound variable
+// (q!name / qi) outside the quantifier that binds it.
+func hasFreeBound(t *Term, bound map[string]bool) bool {
+	if len(t.Args) == 0 {
+		if !t.Sym && !t.Lit && (strings.HasPrefix(t.Op, "q!") || t.Op == "qi") {
+			return !bound[t.Op]
+		}
+		return false
+	}
+	if !t.Sym && (strings.HasPrefix(t.Op, "forall") || strings.HasPrefix(t.Op, "exists")) {
+		// Op is "forall ((q!x Int))" or plain "forall" with str set
+		nb := map[string]bool{}
+		for k := range bound {
+			nb[k] = true
+		}
+		s := t.String()
+		if i := strings.Index(s, "(("); i >= 0 {
+			rest := s[i+2:]
+			if j := strings.IndexByte(rest, ' '); j > 0 {
+				nb[rest[:j]] = true
+			}
+		}
+		for _, a := range t.Args {
+			if hasFreeBound(a, nb) {
+				return true
+			}
+		}
+		return false
+	}
+	for _, a := range t.Args {
+		if hasFreeBound(a, bound) {
+			return true
+		}
+	}
+	return false
 }
